@@ -792,7 +792,11 @@ func (r *ACLResolver) collectPoliciesForIdentity(identity structs.ACLIdentity, p
 		}
 
 		if entry.Policy == nil {
-			// this happens when we cache a negative response for the policy's existence
+			// this happens when we cache a negative response for the policy's existence;
+			// like any other entry it is only trusted for the policy TTL
+			if entry.Age() >= r.config.ACLPolicyTTL {
+				missing = append(missing, policyID)
+			}
 			continue
 		}
 
@@ -893,7 +897,11 @@ func (r *ACLResolver) collectRolesForIdentity(identity structs.ACLIdentity, role
 		}
 
 		if entry.Role == nil {
-			// this happens when we cache a negative response for the role's existence
+			// this happens when we cache a negative response for the role's existence;
+			// like any other entry it is only trusted for the role TTL
+			if entry.Age() >= r.config.ACLRoleTTL {
+				missing = append(missing, roleID)
+			}
 			continue
 		}
 
